@@ -333,6 +333,225 @@ theorem lon_increasing_neptune : StrictMonoOn (Spec.directSum Neptune_VSOP87_L) 
     Tables.Neptune.L_sumAbsAC (by norm_num [bSums, subAt1, expA, expC])
   exact h.mono (Set.Icc_subset_Icc (le_refl _) (by norm_num))
 
+/-! ### Rate of the longitude (partial form of "at a daily rate within 3 % of the Keplerian extremes").
+FULL CLAUSE (not proved; covered by the predicates of harness/c07.py only): the daily motion stays within 3 % of
+the Keplerian extremes `n√(1−e²)/(1±e)²` of the mean orbit.  PROVED here, for every t ∈ [−4, 4] millennia: the
+un-reduced longitude series is differentiable and its derivative differs from the secular rate `a` (the mean
+motion, series L1) by at most the fraction ρ of `a` given by the triangle inequality over all the other terms
+(sums of |A| and |A·C| of the regenerated tables): Venus 2.2 %, Neptune 2.6 %, Earth 4.6 %, Uranus 12 %,
+Jupiter 15 %, Saturn 24 %, Mars 31 %, Mercury 64 %.  MISSING: the bound is not tight (it ignores the phases), so
+it brackets the equation-of-centre variation (2e ≈ 1.4 % … 41 %) only coarsely. -/
+theorem lon_rate_partial_mercury (t : ℝ) (ht : |t| ≤ 4) :
+    ∃ d, HasDerivAt (Spec.directSum Mercury_VSOP87_L) d t ∧
+      |d - Spec.leadAmp Mercury_VSOP87_L| ≤ 0.64 * Spec.leadAmp Mercury_VSOP87_L := by
+  unfold Mercury_VSOP87_L
+  rw [leadAmp_scaled _ _ _ _ Tables.Mercury.L_lead1]
+  exact deriv_bounds_of_sums Tables.Mercury.L _ _ _ 4 _ Tables.Mercury.L_lead1 Tables.Mercury.L_sumAbsA
+    Tables.Mercury.L_sumAbsAC (by norm_num [bSums, subAt1, expA, expC]) t ht
+theorem lon_rate_partial_venus (t : ℝ) (ht : |t| ≤ 4) :
+    ∃ d, HasDerivAt (Spec.directSum Venus_VSOP87_L) d t ∧
+      |d - Spec.leadAmp Venus_VSOP87_L| ≤ 0.022 * Spec.leadAmp Venus_VSOP87_L := by
+  unfold Venus_VSOP87_L
+  rw [leadAmp_scaled _ _ _ _ Tables.Venus.L_lead1]
+  exact deriv_bounds_of_sums Tables.Venus.L _ _ _ 4 _ Tables.Venus.L_lead1 Tables.Venus.L_sumAbsA
+    Tables.Venus.L_sumAbsAC (by norm_num [bSums, subAt1, expA, expC]) t ht
+theorem lon_rate_partial_earth (t : ℝ) (ht : |t| ≤ 4) :
+    ∃ d, HasDerivAt (Spec.directSum Earth_VSOP87_L) d t ∧
+      |d - Spec.leadAmp Earth_VSOP87_L| ≤ 0.046 * Spec.leadAmp Earth_VSOP87_L := by
+  unfold Earth_VSOP87_L
+  rw [leadAmp_scaled _ _ _ _ Tables.Earth.L_lead1]
+  exact deriv_bounds_of_sums Tables.Earth.L _ _ _ 4 _ Tables.Earth.L_lead1 Tables.Earth.L_sumAbsA
+    Tables.Earth.L_sumAbsAC (by norm_num [bSums, subAt1, expA, expC]) t ht
+theorem lon_rate_partial_mars (t : ℝ) (ht : |t| ≤ 4) :
+    ∃ d, HasDerivAt (Spec.directSum Mars_VSOP87_L) d t ∧
+      |d - Spec.leadAmp Mars_VSOP87_L| ≤ 0.31 * Spec.leadAmp Mars_VSOP87_L := by
+  unfold Mars_VSOP87_L
+  rw [leadAmp_scaled _ _ _ _ Tables.Mars.L_lead1]
+  exact deriv_bounds_of_sums Tables.Mars.L _ _ _ 4 _ Tables.Mars.L_lead1 Tables.Mars.L_sumAbsA
+    Tables.Mars.L_sumAbsAC (by norm_num [bSums, subAt1, expA, expC]) t ht
+theorem lon_rate_partial_jupiter (t : ℝ) (ht : |t| ≤ 4) :
+    ∃ d, HasDerivAt (Spec.directSum Jupiter_VSOP87_L) d t ∧
+      |d - Spec.leadAmp Jupiter_VSOP87_L| ≤ 0.15 * Spec.leadAmp Jupiter_VSOP87_L := by
+  unfold Jupiter_VSOP87_L
+  rw [leadAmp_scaled _ _ _ _ Tables.Jupiter.L_lead1]
+  exact deriv_bounds_of_sums Tables.Jupiter.L _ _ _ 4 _ Tables.Jupiter.L_lead1 Tables.Jupiter.L_sumAbsA
+    Tables.Jupiter.L_sumAbsAC (by norm_num [bSums, subAt1, expA, expC]) t ht
+theorem lon_rate_partial_saturn (t : ℝ) (ht : |t| ≤ 4) :
+    ∃ d, HasDerivAt (Spec.directSum Saturn_VSOP87_L) d t ∧
+      |d - Spec.leadAmp Saturn_VSOP87_L| ≤ 0.24 * Spec.leadAmp Saturn_VSOP87_L := by
+  unfold Saturn_VSOP87_L
+  rw [leadAmp_scaled _ _ _ _ Tables.Saturn.L_lead1]
+  exact deriv_bounds_of_sums Tables.Saturn.L _ _ _ 4 _ Tables.Saturn.L_lead1 Tables.Saturn.L_sumAbsA
+    Tables.Saturn.L_sumAbsAC (by norm_num [bSums, subAt1, expA, expC]) t ht
+theorem lon_rate_partial_uranus (t : ℝ) (ht : |t| ≤ 4) :
+    ∃ d, HasDerivAt (Spec.directSum Uranus_VSOP87_L) d t ∧
+      |d - Spec.leadAmp Uranus_VSOP87_L| ≤ 0.12 * Spec.leadAmp Uranus_VSOP87_L := by
+  unfold Uranus_VSOP87_L
+  rw [leadAmp_scaled _ _ _ _ Tables.Uranus.L_lead1]
+  exact deriv_bounds_of_sums Tables.Uranus.L _ _ _ 4 _ Tables.Uranus.L_lead1 Tables.Uranus.L_sumAbsA
+    Tables.Uranus.L_sumAbsAC (by norm_num [bSums, subAt1, expA, expC]) t ht
+theorem lon_rate_partial_neptune (t : ℝ) (ht : |t| ≤ 4) :
+    ∃ d, HasDerivAt (Spec.directSum Neptune_VSOP87_L) d t ∧
+      |d - Spec.leadAmp Neptune_VSOP87_L| ≤ 0.026 * Spec.leadAmp Neptune_VSOP87_L := by
+  unfold Neptune_VSOP87_L
+  rw [leadAmp_scaled _ _ _ _ Tables.Neptune.L_lead1]
+  exact deriv_bounds_of_sums Tables.Neptune.L _ _ _ 4 _ Tables.Neptune.L_lead1 Tables.Neptune.L_sumAbsA
+    Tables.Neptune.L_sumAbsAC (by norm_num [bSums, subAt1, expA, expC]) t ht
+
+/-! ### The secular acceleration: series L2 against the `T²` coefficient of the mean longitude.
+For the planets whose series L2 starts with the secular term `(A, 0, 0)` (Mercury, Venus, Earth, Uranus,
+Neptune; for Mars, Jupiter and Saturn the source lists a periodic term first), `A·t²` in 1e-8 rad per
+millennium², converted to degrees per century², equals `ORBITAL_ELEM[0][2]` to 5e-7°/century² (the values are
+≈ 3.0e-4): a dropped or shifted digit in the `t²` constant of a longitude series breaks this. -/
+theorem accel_matches_mercury :
+    (∃ a : Int, (Tables.Mercury.L.getD 2 []).head? = some (a, 0, 0)) ∧
+    |Spec.leadAccel Mercury_VSOP87_L - Spec.elemAccel Mercury_ORBITAL_ELEM| ≤ 0.0000005 := by
+  refine ⟨⟨_, Tables.Mercury.L_lead2⟩, ?_⟩
+  unfold Spec.leadAccel Mercury_VSOP87_L
+  rw [lead2_scaled _ _ _ _ Tables.Mercury.L_lead2]
+  apply accel_of_bounds <;> norm_num [Spec.elemAccel, Mercury_ORBITAL_ELEM, expA]
+theorem accel_matches_venus :
+    (∃ a : Int, (Tables.Venus.L.getD 2 []).head? = some (a, 0, 0)) ∧
+    |Spec.leadAccel Venus_VSOP87_L - Spec.elemAccel Venus_ORBITAL_ELEM| ≤ 0.0000005 := by
+  refine ⟨⟨_, Tables.Venus.L_lead2⟩, ?_⟩
+  unfold Spec.leadAccel Venus_VSOP87_L
+  rw [lead2_scaled _ _ _ _ Tables.Venus.L_lead2]
+  apply accel_of_bounds <;> norm_num [Spec.elemAccel, Venus_ORBITAL_ELEM, expA]
+theorem accel_matches_earth :
+    (∃ a : Int, (Tables.Earth.L.getD 2 []).head? = some (a, 0, 0)) ∧
+    |Spec.leadAccel Earth_VSOP87_L - Spec.elemAccel Earth_ORBITAL_ELEM| ≤ 0.0000005 := by
+  refine ⟨⟨_, Tables.Earth.L_lead2⟩, ?_⟩
+  unfold Spec.leadAccel Earth_VSOP87_L
+  rw [lead2_scaled _ _ _ _ Tables.Earth.L_lead2]
+  apply accel_of_bounds <;> norm_num [Spec.elemAccel, Earth_ORBITAL_ELEM, expA]
+theorem accel_matches_uranus :
+    (∃ a : Int, (Tables.Uranus.L.getD 2 []).head? = some (a, 0, 0)) ∧
+    |Spec.leadAccel Uranus_VSOP87_L - Spec.elemAccel Uranus_ORBITAL_ELEM| ≤ 0.0000005 := by
+  refine ⟨⟨_, Tables.Uranus.L_lead2⟩, ?_⟩
+  unfold Spec.leadAccel Uranus_VSOP87_L
+  rw [lead2_scaled _ _ _ _ Tables.Uranus.L_lead2]
+  apply accel_of_bounds <;> norm_num [Spec.elemAccel, Uranus_ORBITAL_ELEM, expA]
+theorem accel_matches_neptune :
+    (∃ a : Int, (Tables.Neptune.L.getD 2 []).head? = some (a, 0, 0)) ∧
+    |Spec.leadAccel Neptune_VSOP87_L - Spec.elemAccel Neptune_ORBITAL_ELEM| ≤ 0.0000005 := by
+  refine ⟨⟨_, Tables.Neptune.L_lead2⟩, ?_⟩
+  unfold Spec.leadAccel Neptune_VSOP87_L
+  rw [lead2_scaled _ _ _ _ Tables.Neptune.L_lead2]
+  apply accel_of_bounds <;> norm_num [Spec.elemAccel, Neptune_ORBITAL_ELEM, expA]
+
+/-! ### The mean distance (partial form of "the radius vector lies between the perihelion and aphelion distance of
+the mean orbit").  FULL CLAUSE (measured only): a(1−e)·0.99 ≤ r(t) ≤ a(1+e)·1.01 for every epoch.  PROVED: the
+constant term of series R0 — the time average of the radius vector over the periodic terms — is the Keplerian
+average `a (1 + e²/2)` of the library's own mean elements, to 1e-5 a (Mercury … Mars), 1e-4 a (Jupiter), 2e-3 a
+(Saturn … Neptune, whose tabulated `a` are mean values over long-period terms).  A digit lost in the R0 constant,
+in `a` or in `e` breaks this.  MISSING: the amplitude of the periodic part (triangle inequality too loose). -/
+theorem mean_radius_mercury :
+    (∃ a : Int, (Tables.Mercury.R.getD 0 []).head? = some (a, 0, 0)) ∧
+    |Spec.meanRadius Mercury_VSOP87_R
+        - Spec.semiMajorAxis Mercury_ORBITAL_ELEM * (1 + Spec.elemEcc Mercury_ORBITAL_ELEM ^ 2 / 2)|
+      ≤ 0.00001 * Spec.semiMajorAxis Mercury_ORBITAL_ELEM := by
+  refine ⟨⟨_, Tables.Mercury.R_lead0⟩, ?_⟩
+  unfold Spec.meanRadius Mercury_VSOP87_R
+  rw [lead0_scaled _ _ _ _ Tables.Mercury.R_lead0]
+  norm_num [Spec.semiMajorAxis, Spec.elemEcc, Mercury_ORBITAL_ELEM, expA, abs_le]
+theorem mean_radius_venus :
+    (∃ a : Int, (Tables.Venus.R.getD 0 []).head? = some (a, 0, 0)) ∧
+    |Spec.meanRadius Venus_VSOP87_R
+        - Spec.semiMajorAxis Venus_ORBITAL_ELEM * (1 + Spec.elemEcc Venus_ORBITAL_ELEM ^ 2 / 2)|
+      ≤ 0.00001 * Spec.semiMajorAxis Venus_ORBITAL_ELEM := by
+  refine ⟨⟨_, Tables.Venus.R_lead0⟩, ?_⟩
+  unfold Spec.meanRadius Venus_VSOP87_R
+  rw [lead0_scaled _ _ _ _ Tables.Venus.R_lead0]
+  norm_num [Spec.semiMajorAxis, Spec.elemEcc, Venus_ORBITAL_ELEM, expA, abs_le]
+theorem mean_radius_earth :
+    (∃ a : Int, (Tables.Earth.R.getD 0 []).head? = some (a, 0, 0)) ∧
+    |Spec.meanRadius Earth_VSOP87_R
+        - Spec.semiMajorAxis Earth_ORBITAL_ELEM * (1 + Spec.elemEcc Earth_ORBITAL_ELEM ^ 2 / 2)|
+      ≤ 0.00001 * Spec.semiMajorAxis Earth_ORBITAL_ELEM := by
+  refine ⟨⟨_, Tables.Earth.R_lead0⟩, ?_⟩
+  unfold Spec.meanRadius Earth_VSOP87_R
+  rw [lead0_scaled _ _ _ _ Tables.Earth.R_lead0]
+  norm_num [Spec.semiMajorAxis, Spec.elemEcc, Earth_ORBITAL_ELEM, expA, abs_le]
+theorem mean_radius_mars :
+    (∃ a : Int, (Tables.Mars.R.getD 0 []).head? = some (a, 0, 0)) ∧
+    |Spec.meanRadius Mars_VSOP87_R
+        - Spec.semiMajorAxis Mars_ORBITAL_ELEM * (1 + Spec.elemEcc Mars_ORBITAL_ELEM ^ 2 / 2)|
+      ≤ 0.00001 * Spec.semiMajorAxis Mars_ORBITAL_ELEM := by
+  refine ⟨⟨_, Tables.Mars.R_lead0⟩, ?_⟩
+  unfold Spec.meanRadius Mars_VSOP87_R
+  rw [lead0_scaled _ _ _ _ Tables.Mars.R_lead0]
+  norm_num [Spec.semiMajorAxis, Spec.elemEcc, Mars_ORBITAL_ELEM, expA, abs_le]
+theorem mean_radius_jupiter :
+    (∃ a : Int, (Tables.Jupiter.R.getD 0 []).head? = some (a, 0, 0)) ∧
+    |Spec.meanRadius Jupiter_VSOP87_R
+        - Spec.semiMajorAxis Jupiter_ORBITAL_ELEM * (1 + Spec.elemEcc Jupiter_ORBITAL_ELEM ^ 2 / 2)|
+      ≤ 0.0001 * Spec.semiMajorAxis Jupiter_ORBITAL_ELEM := by
+  refine ⟨⟨_, Tables.Jupiter.R_lead0⟩, ?_⟩
+  unfold Spec.meanRadius Jupiter_VSOP87_R
+  rw [lead0_scaled _ _ _ _ Tables.Jupiter.R_lead0]
+  norm_num [Spec.semiMajorAxis, Spec.elemEcc, Jupiter_ORBITAL_ELEM, expA, abs_le]
+theorem mean_radius_saturn :
+    (∃ a : Int, (Tables.Saturn.R.getD 0 []).head? = some (a, 0, 0)) ∧
+    |Spec.meanRadius Saturn_VSOP87_R
+        - Spec.semiMajorAxis Saturn_ORBITAL_ELEM * (1 + Spec.elemEcc Saturn_ORBITAL_ELEM ^ 2 / 2)|
+      ≤ 0.002 * Spec.semiMajorAxis Saturn_ORBITAL_ELEM := by
+  refine ⟨⟨_, Tables.Saturn.R_lead0⟩, ?_⟩
+  unfold Spec.meanRadius Saturn_VSOP87_R
+  rw [lead0_scaled _ _ _ _ Tables.Saturn.R_lead0]
+  norm_num [Spec.semiMajorAxis, Spec.elemEcc, Saturn_ORBITAL_ELEM, expA, abs_le]
+theorem mean_radius_uranus :
+    (∃ a : Int, (Tables.Uranus.R.getD 0 []).head? = some (a, 0, 0)) ∧
+    |Spec.meanRadius Uranus_VSOP87_R
+        - Spec.semiMajorAxis Uranus_ORBITAL_ELEM * (1 + Spec.elemEcc Uranus_ORBITAL_ELEM ^ 2 / 2)|
+      ≤ 0.002 * Spec.semiMajorAxis Uranus_ORBITAL_ELEM := by
+  refine ⟨⟨_, Tables.Uranus.R_lead0⟩, ?_⟩
+  unfold Spec.meanRadius Uranus_VSOP87_R
+  rw [lead0_scaled _ _ _ _ Tables.Uranus.R_lead0]
+  norm_num [Spec.semiMajorAxis, Spec.elemEcc, Uranus_ORBITAL_ELEM, expA, abs_le]
+theorem mean_radius_neptune :
+    (∃ a : Int, (Tables.Neptune.R.getD 0 []).head? = some (a, 0, 0)) ∧
+    |Spec.meanRadius Neptune_VSOP87_R
+        - Spec.semiMajorAxis Neptune_ORBITAL_ELEM * (1 + Spec.elemEcc Neptune_ORBITAL_ELEM ^ 2 / 2)|
+      ≤ 0.002 * Spec.semiMajorAxis Neptune_ORBITAL_ELEM := by
+  refine ⟨⟨_, Tables.Neptune.R_lead0⟩, ?_⟩
+  unfold Spec.meanRadius Neptune_VSOP87_R
+  rw [lead0_scaled _ _ _ _ Tables.Neptune.R_lead0]
+  norm_num [Spec.semiMajorAxis, Spec.elemEcc, Neptune_ORBITAL_ELEM, expA, abs_le]
+
+/-! ### `orbital_elements`: which rows of which table -/
+
+/-- `orbital_elements(epoch, ORBITAL_ELEM, ORBITAL_ELEM_J2000)` (the `len(parameters2) == 4` branch): L, i, Ω, ϖ are
+    the cubics of rows 0, 1, 2, 3 of the J2000 table, `a` and `e` those of rows 1 and 2 of the mean-equinox
+    table, T in Julian centuries from J2000.0; the angles are returned as `Angle`s and the last one is the
+    argument of perihelion ϖ − Ω.  For all coefficients and all epochs. -/
+theorem orbital_elements_rows_j2000 (jde : ℝ) (r0 r3 r4 r5 : List ℝ)
+    (a0 a1 a2 a3 e0 e1 e2 e3 l0 l1 l2 l3 i0 i1 i2 i3 o0 o1 o2 o3 p0 p1 p2 p3 : ℝ) :
+    orbital_elements jde [r0, [a0, a1, a2, a3], [e0, e1, e2, e3], r3, r4, r5]
+        [[l0, l1, l2, l3], [i0, i1, i2, i3], [o0, o1, o2, o3], [p0, p1, p2, p3]] =
+      (let t := (jde - 2451545.0) / 36525.0
+       .ok (angOfDeg (Spec.cubic t l0 l1 l2 l3), Spec.cubic t a0 a1 a2 a3, Spec.cubic t e0 e1 e2 e3,
+         angOfDeg (Spec.cubic t i0 i1 i2 i3), angOfDeg (Spec.cubic t o0 o1 o2 o3),
+         angOfDeg (Spec.cubic t p0 p1 p2 p3 - Spec.cubic t o0 o1 o2 o3))) := by
+  simp [orbital_elements, element_at, compute_element, Spec.cubic]
+
+/-- `orbital_elements(epoch, ORBITAL_ELEM, ORBITAL_ELEM)` (six-row second table): L, a, e, i, Ω, ϖ are the cubics of
+    rows 0 … 5. -/
+theorem orbital_elements_rows_of_date (jde : ℝ)
+    (a0 a1 a2 a3 e0 e1 e2 e3 l0 l1 l2 l3 i0 i1 i2 i3 o0 o1 o2 o3 p0 p1 p2 p3 : ℝ) :
+    orbital_elements jde [[l0, l1, l2, l3], [a0, a1, a2, a3], [e0, e1, e2, e3], [i0, i1, i2, i3], [o0, o1, o2, o3], [p0, p1, p2, p3]]
+        [[l0, l1, l2, l3], [a0, a1, a2, a3], [e0, e1, e2, e3], [i0, i1, i2, i3], [o0, o1, o2, o3], [p0, p1, p2, p3]] =
+      (let t := (jde - 2451545.0) / 36525.0
+       .ok (angOfDeg (Spec.cubic t l0 l1 l2 l3), Spec.cubic t a0 a1 a2 a3, Spec.cubic t e0 e1 e2 e3,
+         angOfDeg (Spec.cubic t i0 i1 i2 i3), angOfDeg (Spec.cubic t o0 o1 o2 o3),
+         angOfDeg (Spec.cubic t p0 p1 p2 p3 - Spec.cubic t o0 o1 o2 o3))) := by
+  simp [orbital_elements, element_at, compute_element, Spec.cubic]
+
+/-- A missing row raises (IndexError) instead of being read as zero. -/
+theorem orbital_elements_missing_row (jde : ℝ) (p1 : List (List ℝ)) :
+    orbital_elements jde p1 [] = .error .other := by
+  simp [orbital_elements, element_at]
+
+
 /-! ### The wrappers -/
 
 /-- The per-planet methods (generated from the source) are the evaluators applied to the planet's own
@@ -388,6 +607,9 @@ theorem planets_defined (jde : ℝ) (f : Bool) :
 
 /-! ### non-vacuity: the objects the theorems speak about are the non-trivial ones -/
 
+example : Venus_ORBITAL_ELEM.map List.length = [4, 4, 4, 4, 4, 4] ∧ Venus_ORBITAL_ELEM_J2000.map List.length = [4, 4, 4, 4] :=
+  ⟨rfl, rfl⟩
+example : Spec.elemAccel Venus_ORBITAL_ELEM = 0.00031014 := by norm_num [Spec.elemAccel, Venus_ORBITAL_ELEM]
 example : Spec.elemRate Venus_ORBITAL_ELEM = 58519.2130302 := by norm_num [Spec.elemRate, Venus_ORBITAL_ELEM]
 example : Spec.semiMajorAxis Neptune_ORBITAL_ELEM = 30.110386869 := by norm_num [Spec.semiMajorAxis, Neptune_ORBITAL_ELEM]
 example : Spec.leadAmp Mercury_VSOP87_L = 2608814706222.746 := by
